@@ -26,7 +26,7 @@ TOTAL = {
     "IntoIterator::into_iter": "pure", "Deref::deref": "pure (Vec/String/lazy_static deref; lazy initialisers are census-only, see DESIGN)",
     "DerefMut::deref_mut": "pure", "<impl str>::chars": "pure", "<impl str>::bytes": "pure", "<impl str>::starts_with": "pure",
     "<impl str>::as_bytes": "pure", "<impl str>::strip_prefix": "pure", "<impl str>::is_empty": "pure", "<impl [T]>::is_empty": "pure",
-    "<impl [T]>::to_vec": "alloc only", "<impl [T]>::concat": "alloc only", "<impl [T]>::last": "pure", "<impl [T]>::first": "pure",
+    "<impl [T]>::to_vec": "alloc only", "<impl [T]>::concat": "alloc only", "<impl [T]>::last": "pure", "<impl [T]>::first": "pure", "<impl [T]>::split_last": "pure", "<impl [T]>::split_first": "pure",
     "<impl [T]>::get": "returns Option", "<impl [T]>::contains": "pure", "<impl [T]>::iter().rev": "pure",
     "Vec::<T>::new": "pure", "Vec::<T, A>::push": "alloc only", "Vec::<T, A>::is_empty": "pure", "Vec::<T, A>::extend_from_slice": "alloc only",
     "Vec::<T, A>::append": "alloc only", "Vec::<T, A>::pop": "pure", "Vec::<T, A>::clear": "pure", "Vec::<T, A>::as_slice": "pure",
